@@ -7,9 +7,10 @@ use crate::model::{domains, ref_valid, FamRefs, Refs};
 use serde_json::{json, Value};
 
 pub fn iri_domain(f: Family, fr: &FamRefs, n: usize, level: u8) -> Vec<Vec<u8>> {
-	let mut segs: Vec<&str> = vec!["", ".", "..", "a", "b", "a:b"];
+	// %FF / %FE: octets that are not UTF-8; %C0%AF: overlong '/', %2F: encoded '/'
+	let mut segs: Vec<&str> = vec!["", ".", "..", "a", "b", "a:b", "%FF", "%FE", "%C0%AF", "%2F", "%61"];
 	if level == 0 {
-		segs = vec!["", "..", "a", "b"];
+		segs = vec!["", "..", "a", "b", "%FF", "%FE", "%61"];
 	}
 	if f == Family::Iri && level >= 1 {
 		segs.push("é");
@@ -88,7 +89,8 @@ pub fn run_c16(ctx: &Ctx) -> Report {
 	for f in Family::BOTH {
 		let fr = FamRefs::new(refs, f);
 		let dpath = refs.dfa(f, Kind::Path);
-		let segs: Vec<Vec<u8>> = ["", ".", "..", "a", "b", "a:b", "%61", "%FF"].iter().map(|s| domains::b(s)).collect();
+		// "x%62" / "X%62": differ only in the case of a letter outside the %XX triplet
+		let segs: Vec<Vec<u8>> = ["", ".", "..", "a", "b", "a:b", "%61", "%FF", "x%62", "X%62", "xb"].iter().map(|s| domains::b(s)).collect();
 		let paths: Vec<Vec<u8>> = domains::paths(&segs, n).into_iter().filter(|p| ref_valid(&dpath, f, Kind::Path, p)).collect();
 		// quick: all pairs of PATH(3) would be 9e6; keep the prefix side at PATH(2)
 		let prefixes: Vec<Vec<u8>> = domains::paths(&segs, n - 1).into_iter().filter(|p| ref_valid(&dpath, f, Kind::Path, p)).collect();
